@@ -1,133 +1,605 @@
 """C10 translator plugin: sigpy/wavelet.py -> lean/SigpyVerif/Gen/C10Formulas.lean
 
-T2  the even-padding formula `zshape = [((i + 1) // 2) * 2 for i in ...]` at both sites
-    (`get_wavelet_shape`, `fwt`) as Lean `Int` functions, and
-    the *call structure* of the PyWavelets glue as string lists (function, data-shape source, wavelet
-    argument, mode, axes, level ...), so that `Props/C10.lean` can state (and the kernel re-checks on every
-    run) that the shape function and the forward transform decompose the same padded array the same way
-    and that the inverse uses the mirrored call.  Anything unexpected raises `Unsupported` (= broken
-    obligation, never a pass).
+What is generated (and re-checked by the Lean kernel on every run, `Props/C10.lean`):
+
+T2  the even-padding formula (element of the padded shape `[((i + 1) // 2) * 2 for i in ...]`) at both sites
+    (`get_wavelet_shape`, `fwt`) as Lean `Int` functions `waveZshapeShape` / `waveZshapeFwt`, and
+    the DATA FLOW of the PyWavelets glue as string lists: for every PyWavelets / `util.resize` call the callee and
+    its arguments *bound to the callee's parameter names* (value = where the argument comes from), and for each of the
+    three functions the returned expression.
+
+Normalisation before matching (round 5: robustness against behaviour-preserving re-spellings).  The three functions
+(and every private helper they call) must be STRAIGHT-LINE code: docstring, `name = expr`, `a, b = expr`,
+`x = []` + `for v in it: x.append(e)` (rewritten to the comprehension with the same iteration order), `return expr`.
+Such a body is a pure data-flow graph, and the translator describes the graph, not its spelling:
+
+ * every local name is replaced by the expression it holds at the point of use (reaching definition; reassigned
+   names like `input` / `output` / `tmp` are followed correctly): single-assignment temporaries, hoisted
+   sub-expressions, renamed locals, `a, _ = f(..)` vs `f(..)[0]` all give the same graph; module-level constants
+   `NAME = <literal>` are substituted too;
+ * a call to a private module-level helper `_name(...)` defined in the same file is replaced by the helper's returned
+   expression with the arguments substituted for the parameters (arguments bound positionally / by keyword / by
+   default against the helper's signature; recursion, `*args`, decorators, a non-straight-line body, name capture by
+   a comprehension variable: `Unsupported`);
+ * calls to PyWavelets (`inspect.signature` of the installed pywt), `util.resize`, `backend.to_device`,
+   `backend.get_device` (signatures read from /repo) and `np.zeros` are put in keyword form in signature order, an omitted
+   argument being listed with the callee's default: positional <-> keyword spelling and explicit defaults do not
+   matter, a swapped or changed argument does;
+ * `list(<generator>)` is the list comprehension.
+
+Substituting an expression for a name is only a faithful description when the expressions are free of side effects,
+so the set of callables is CLOSED: PyWavelets' four functions, `util.resize`, `backend.to_device/get_device`,
+`np.zeros`, a few pure builtins and private helpers of the same file.  A call to anything else, a method call, an
+`if` / `for` / `while` / `with` / `try` statement, `lambda`, `:=`, starred arguments ... raise `Unsupported`
+(= broken obligation, never a pass).  A semantic change inside the subset (other argument, other source of an
+argument, other returned value, other padding formula) changes the generated definition, and the theorems of
+`Props/C10.lean` about it stop checking.
+
+Tokens in the generated strings: `<zshape>` the padded-shape comprehension whose element formula is generated as
+`waveZshape*` and which iterates over the shape being padded (`shape` in `get_wavelet_shape`, `<resized array>.shape`
+in `fwt` - anything else is rendered verbatim as `<zshape over ...>`), `<dec>` / `<pack>` / `<pad>` / `<unpack>` /
+`<rec>` / `<crop>` the value of the function's wavedecn / coeffs_to_array / pad-resize / array_to_coeffs / waverecn /
+crop-resize call.
 """
 import ast
+import copy
 
 from harness.translate import gen as G
 from harness.translate import py2lean as T
+
+U = T.Unsupported
+
+PYWT_FUNCS = ("wavedecn", "waverecn", "coeffs_to_array", "array_to_coeffs")
+PURE_BUILTINS = ("list", "tuple", "len", "int", "range", "max", "min", "zip", "reversed", "enumerate", "sorted", "abs")
+EXPR_NODES = (ast.Attribute, ast.Subscript, ast.BinOp, ast.UnaryOp, ast.BoolOp, ast.Compare, ast.IfExp, ast.Tuple,
+              ast.List, ast.Constant, ast.Slice)
+API = {"get_wavelet_shape": ["shape", "wave_name", "axes", "level"],
+       "fwt": ["input", "wave_name", "axes", "level"],
+       "iwt": ["input", "oshape", "coeff_slices", "wave_name", "axes", "level"]}
 
 
 def _src(node):
     return ast.unparse(node).replace('"', "'")
 
 
-def _find_call(fn, attr):
-    """the unique call `pywt.<attr>(...)` in fn"""
-    found = []
-    for n in ast.walk(fn):
-        if isinstance(n, ast.Call) and isinstance(n.func, ast.Attribute) and n.func.attr == attr \
-                and isinstance(n.func.value, ast.Name) and n.func.value.id == "pywt":
-            found.append(n)
+def _dump(node):
+    return ast.dump(node)
+
+
+def _dotted(f):
+    if isinstance(f, ast.Name):
+        return f.id
+    if isinstance(f, ast.Attribute) and isinstance(f.value, ast.Name):
+        return f.value.id + "." + f.attr
+    return None
+
+
+def _names(node, ctx=(ast.Load, ast.Store, ast.Del)):
+    return {n.id for n in ast.walk(node) if isinstance(n, ast.Name) and isinstance(n.ctx, ctx)}
+
+
+def _target_names(t):
+    if isinstance(t, ast.Name):
+        return [t.id]
+    if isinstance(t, ast.Tuple) and all(isinstance(e, ast.Name) for e in t.elts):
+        return [e.id for e in t.elts]
+    raise U("binding target %s" % _src(t))
+
+
+def _simple_params(fn):
+    """[(name, default node | None)] of a def with positional-or-keyword parameters only"""
+    a = fn.args
+    if a.vararg or a.kwarg or a.kwonlyargs or a.posonlyargs:
+        raise U("%s: only plain positional-or-keyword parameters are translated" % fn.name)
+    defaults = [None] * (len(a.args) - len(a.defaults)) + list(a.defaults)
+    return [(p.arg, d) for p, d in zip(a.args, defaults)]
+
+
+def _loops_to_comps(stmts, where):
+    """`x = []` immediately followed by `for v in it: x.append(e)` (or `x += [e]`)  ->  `x = [e for v in it]`
+    (same iteration order, same element expression; the loop variable must not be read afterwards)"""
+    out, i = [], 0
+    while i < len(stmts):
+        s = stmts[i]
+        nxt = stmts[i + 1] if i + 1 < len(stmts) else None
+        empty = isinstance(s, ast.Assign) and len(s.targets) == 1 and isinstance(s.targets[0], ast.Name) and (
+            (isinstance(s.value, ast.List) and not s.value.elts)
+            or (isinstance(s.value, ast.Call) and _dotted(s.value.func) == "list" and not s.value.args and not s.value.keywords))
+        if empty and isinstance(nxt, ast.For) and not nxt.orelse and len(nxt.body) == 1:
+            x, b, e = s.targets[0].id, nxt.body[0], None
+            if isinstance(b, ast.Expr) and isinstance(b.value, ast.Call) and isinstance(b.value.func, ast.Attribute) \
+                    and b.value.func.attr == "append" and isinstance(b.value.func.value, ast.Name) \
+                    and b.value.func.value.id == x and len(b.value.args) == 1 and not b.value.keywords:
+                e = b.value.args[0]
+            elif isinstance(b, ast.AugAssign) and isinstance(b.op, ast.Add) and isinstance(b.target, ast.Name) \
+                    and b.target.id == x and isinstance(b.value, ast.List) and len(b.value.elts) == 1:
+                e = b.value.elts[0]
+            if e is not None and not isinstance(e, ast.Starred):
+                tn = _target_names(nxt.target)
+                if x in _names(e) or x in _names(nxt.iter) or x in tn:
+                    raise U("%s: accumulation loop for %s reads the list it builds" % (where, x))
+                for later in stmts[i + 2:]:
+                    if set(tn) & _names(later, (ast.Load,)):
+                        raise U("%s: loop variable %s is read after the loop" % (where, tn))
+                comp = ast.ListComp(elt=e, generators=[ast.comprehension(target=nxt.target, iter=nxt.iter, ifs=[], is_async=0)])
+                out.append(ast.copy_location(ast.Assign(targets=[s.targets[0]], value=comp), s))
+                i += 2
+                continue
+        out.append(s)
+        i += 1
+    return out
+
+
+class Resolver:
+    """straight-line function body -> the expression it returns, in terms of its parameters and module globals"""
+
+    def __init__(self, tree):
+        self.tree = tree
+        self.helpers, self.consts = {}, {}
+        bound = {}
+        for s in tree.body:
+            if isinstance(s, (ast.FunctionDef, ast.ClassDef, ast.AsyncFunctionDef)):
+                bound.setdefault(s.name, []).append("def")
+                if isinstance(s, ast.FunctionDef) and s.name.startswith("_"):
+                    self.helpers[s.name] = s
+            elif isinstance(s, ast.Import):
+                for a in s.names:
+                    bound.setdefault(a.asname or a.name.split(".")[0], []).append("import %s as %s" % (a.name, a.asname))
+            elif isinstance(s, ast.ImportFrom):
+                for a in s.names:
+                    bound.setdefault(a.asname or a.name, []).append("from %s import %s as %s" % (s.module, a.name, a.asname))
+            else:
+                for n in ast.walk(s):
+                    if isinstance(n, ast.Name) and isinstance(n.ctx, (ast.Store, ast.Del)):
+                        bound.setdefault(n.id, []).append("assign")
+                if isinstance(s, ast.Assign) and len(s.targets) == 1 and isinstance(s.targets[0], ast.Name) \
+                        and isinstance(s.value, ast.Constant):
+                    self.consts[s.targets[0].id] = s.value
+        want = {"pywt": ["import pywt as None"], "np": ["import numpy as np"],
+                "util": ["from sigpy import util as None"], "backend": ["from sigpy import backend as None"]}
+        for k, v in want.items():
+            if bound.get(k) != v:
+                raise U("module-level name %s is bound by %s (expected %s)" % (k, bound.get(k), v))
+        for k in list(self.consts):
+            if bound.get(k) != ["assign"]:
+                del self.consts[k]
+        for k in PURE_BUILTINS:
+            if k in bound:
+                raise U("builtin %s is rebound at module level" % k)
+        for k, v in bound.items():
+            if k in self.helpers and v != ["def"]:
+                raise U("helper %s is bound more than once" % k)
+        self.sigs = self._signatures()
+        self._cache = {}
+
+    @staticmethod
+    def _signatures():
+        sigs = {}
+        try:
+            import inspect
+            import pywt
+            for f in PYWT_FUNCS:
+                ps = []
+                for p in inspect.signature(getattr(pywt, f)).parameters.values():
+                    if p.kind != p.POSITIONAL_OR_KEYWORD:
+                        raise U("pywt.%s: parameter kind of %s" % (f, p.name))
+                    if p.default is p.empty:
+                        ps.append((p.name, None))
+                    elif p.default is None or isinstance(p.default, (str, int, bool)):
+                        ps.append((p.name, ast.Constant(value=p.default)))
+                    else:
+                        raise U("pywt.%s: default of %s" % (f, p.name))
+                sigs["pywt." + f] = ps
+        except ImportError as e:
+            raise U("PyWavelets not importable: %s" % e)
+        for mod, rel, fs in [("util", "sigpy/util.py", ["resize"]), ("backend", "sigpy/backend.py", ["get_device", "to_device"])]:
+            mtree = G._parse(rel)
+            for f in fs:
+                defs = [s for s in mtree.body if isinstance(s, ast.FunctionDef) and s.name == f]
+                if len(defs) != 1:
+                    raise U("%s.%s: %d module-level definitions" % (mod, f, len(defs)))
+                sigs["%s.%s" % (mod, f)] = _simple_params(defs[0])
+        sigs["np.zeros"] = [("shape", None), ("dtype", ast.Name(id="float", ctx=ast.Load())), ("order", ast.Constant(value="C"))]
+        return sigs
+
+    # -- binding of call arguments against a signature ------------------------------------------------------------
+    @staticmethod
+    def _bind(what, params, args, keywords):
+        names = [p for p, _ in params]
+        if len(args) > len(names):
+            raise U("%s: too many positional arguments" % what)
+        got = dict(zip(names, args))
+        for k in keywords:
+            if k.arg is None:
+                raise U("%s: ** argument" % what)
+            if k.arg not in names or k.arg in got:
+                raise U("%s: keyword %s" % (what, k.arg))
+            got[k.arg] = k.value
+        return got
+
+    # -- expressions -------------------------------------------------------------------------------------------------
+    def subst(self, node, env, params, bound, stack):
+        """node with every local name replaced by the expression it holds (env), helper calls inlined, known callees in
+        canonical keyword form.  `bound`: comprehension variables in scope (not substituted, must not capture)."""
+        rec = lambda n, b=bound: self.subst(n, env, params, b, stack)  # noqa: E731
+        if isinstance(node, ast.Name):
+            if not isinstance(node.ctx, ast.Load):
+                raise U("name %s in a binding position" % node.id)
+            if node.id in bound:
+                return ast.Name(id=node.id, ctx=ast.Load())
+            if node.id in env:
+                val = env[node.id]
+                cap = _names(val) & bound
+                if cap:
+                    raise U("substituting %s would capture comprehension variable %s" % (node.id, sorted(cap)))
+                return copy.deepcopy(val)
+            if node.id in params:
+                return ast.Name(id=node.id, ctx=ast.Load())
+            if node.id in self.consts:
+                return copy.deepcopy(self.consts[node.id])
+            return ast.Name(id=node.id, ctx=ast.Load())  # module global / builtin: rendered verbatim
+        if isinstance(node, (ast.ListComp, ast.GeneratorExp)):
+            b, gens = set(bound), []
+            for g in node.generators:
+                if g.is_async:
+                    raise U("async comprehension")
+                it = rec(g.iter, frozenset(b))
+                tn = _target_names(g.target)
+                # a comprehension variable named like a local/parameter is fine (it shadows it inside), but the names
+                # substituted inside must not mention it - checked at the substitution (cap above)
+                b |= set(tn)
+                gens.append(ast.comprehension(target=copy.deepcopy(g.target), iter=it,
+                                              ifs=[rec(c, frozenset(b)) for c in g.ifs], is_async=0))
+            elt = rec(node.elt, frozenset(b))
+            return type(node)(elt=elt, generators=gens)
+        if isinstance(node, ast.Call):
+            return self._call(node, env, params, bound, stack)
+        if isinstance(node, EXPR_NODES):
+            new = copy.copy(node)
+            for f in node._fields:
+                v = getattr(node, f)
+                if isinstance(v, list):
+                    setattr(new, f, [rec(x) if isinstance(x, ast.expr) else x for x in v])
+                elif isinstance(v, ast.expr):
+                    setattr(new, f, rec(v))
+            if isinstance(node, (ast.Attribute, ast.Subscript)) and not isinstance(node.ctx, ast.Load):
+                raise U("attribute/subscript in a binding position")
+            if isinstance(node, (ast.Tuple, ast.List)) and any(isinstance(e, ast.Starred) for e in node.elts):
+                raise U("starred element")
+            return self._simplify(new)
+        raise U("expression %s is outside the translated subset" % type(node).__name__)
+
+    @staticmethod
+    def _simplify(node):
+        """exact rewrites of a resolved node: integer-literal arithmetic is folded (Python ints are exact), and
+        `backend.to_device(x, d).shape` is `x.shape` (moving an array to another device keeps its shape: the one fact
+        about sigpy.backend this translator relies on; it makes hoisting the shape computation over the move harmless)"""
+        if isinstance(node, ast.BinOp) and isinstance(node.left, ast.Constant) and isinstance(node.right, ast.Constant):
+            a, b = node.left.value, node.right.value
+            if type(a) is int and type(b) is int:
+                if isinstance(node.op, ast.Add):
+                    return ast.Constant(value=a + b)
+                if isinstance(node.op, ast.Sub):
+                    return ast.Constant(value=a - b)
+                if isinstance(node.op, ast.Mult):
+                    return ast.Constant(value=a * b)
+                if isinstance(node.op, ast.FloorDiv) and b != 0:
+                    return ast.Constant(value=a // b)
+                if isinstance(node.op, ast.Mod) and b != 0:
+                    return ast.Constant(value=a % b)
+        if isinstance(node, ast.Attribute) and node.attr == "shape" and isinstance(node.value, ast.Call) \
+                and _dotted(node.value.func) == "backend.to_device" and not node.value.args \
+                and [k.arg for k in node.value.keywords] == ["input", "device"]:
+            return ast.Attribute(value=node.value.keywords[0].value, attr="shape", ctx=ast.Load())
+        return node
+
+    def _call(self, node, env, params, bound, stack):
+        rec = lambda n: self.subst(n, env, params, bound, stack)  # noqa: E731
+        if any(isinstance(a, ast.Starred) for a in node.args) or any(k.arg is None for k in node.keywords):
+            raise U("starred call argument in %s" % _src(node))
+        name = _dotted(node.func)
+        head = name.split(".")[0] if name else None
+        if name is None or head in bound or head in env or head in params:
+            raise U("call of %s is outside the translated subset (closed set of side-effect-free callees)" % _src(node.func))
+        args = [rec(a) for a in node.args]
+        kws = [ast.keyword(arg=k.arg, value=rec(k.value)) for k in node.keywords]
+        if name == "numpy.zeros":
+            name = "np.zeros"
+        if name in self.helpers:
+            if name in stack:
+                raise U("recursive helper %s" % name)
+            hparams, hret = self.resolve(self.helpers[name], stack + (name,))
+            got = self._bind(name, hparams, args, kws)
+            henv = {}
+            for p, d in hparams:
+                if p in got:
+                    henv[p] = got[p]
+                elif d is not None:
+                    if not isinstance(d, ast.Constant):
+                        raise U("%s: default of %s is not a literal" % (name, p))
+                    henv[p] = d
+                else:
+                    raise U("%s: argument %s missing" % (name, p))
+            # substitute the (already resolved) arguments for the parameters in the helper's returned expression;
+            # names of the caller bound by an enclosing comprehension stay as they are (bound), a comprehension
+            # variable of the HELPER capturing a name of an argument is refused inside `subst`
+            return self._subst_params(hret, henv, frozenset())
+        if name in self.sigs:
+            sig = self.sigs[name]
+            got = self._bind(name, sig, args, kws)
+            out = []
+            for p, d in sig:
+                if p not in got and d is None:
+                    raise U("%s: argument %s missing" % (name, p))
+                # an omitted argument is listed with the callee's default: explicit and implicit defaults coincide
+                out.append(ast.keyword(arg=p, value=got[p] if p in got else copy.deepcopy(d)))
+            return ast.Call(func=copy.deepcopy(node.func) if name != "np.zeros" else ast.Attribute(
+                value=ast.Name(id="np", ctx=ast.Load()), attr="zeros", ctx=ast.Load()), args=[], keywords=out)
+        if name in PURE_BUILTINS:
+            if name == "list" and len(args) == 1 and not kws and isinstance(args[0], ast.GeneratorExp):
+                return ast.ListComp(elt=args[0].elt, generators=args[0].generators)
+            return ast.Call(func=ast.Name(id=name, ctx=ast.Load()), args=args, keywords=kws)
+        raise U("call of %s is outside the translated subset (closed set of side-effect-free callees)" % name)
+
+    def _subst_params(self, node, henv, bound):
+        """capture-avoiding substitution of helper parameters by argument expressions (everything else is resolved)"""
+        if isinstance(node, ast.Name):
+            if node.id in bound or node.id not in henv:
+                return copy.deepcopy(node)
+            return copy.deepcopy(henv[node.id])
+        if isinstance(node, (ast.ListComp, ast.GeneratorExp)):
+            b, gens = set(bound), []
+            for g in node.generators:
+                it = self._subst_params(g.iter, henv, frozenset(b))
+                tn = set(_target_names(g.target))
+                for p, v in henv.items():
+                    if p not in tn and tn & _names(v):
+                        raise U("inlining would capture %s by a comprehension variable of the helper" % sorted(tn & _names(v)))
+                b |= tn
+                gens.append(ast.comprehension(target=copy.deepcopy(g.target), iter=it,
+                                              ifs=[self._subst_params(c, henv, frozenset(b)) for c in g.ifs], is_async=0))
+            return type(node)(elt=self._subst_params(node.elt, henv, frozenset(b)), generators=gens)
+        new = copy.copy(node)
+        for f in node._fields:
+            v = getattr(node, f)
+            if isinstance(v, list):
+                setattr(new, f, [self._subst_params(x, henv, bound) if isinstance(x, ast.AST) else x for x in v])
+            elif isinstance(v, ast.AST):
+                setattr(new, f, self._subst_params(v, henv, bound))
+        return self._simplify(new)
+
+    # -- statements --------------------------------------------------------------------------------------------------
+    def resolve(self, fn, stack=()):
+        key = fn.name
+        if key in self._cache:
+            return self._cache[key]
+        if fn.decorator_list:
+            raise U("%s is decorated" % fn.name)
+        hparams = _simple_params(fn)
+        params = [p for p, _ in hparams]
+        for n in ast.walk(fn):
+            if isinstance(n, (ast.Global, ast.Nonlocal, ast.Lambda, ast.NamedExpr, ast.Yield, ast.YieldFrom, ast.Await)) or \
+                    (n is not fn and isinstance(n, (ast.FunctionDef, ast.ClassDef, ast.AsyncFunctionDef))):
+                raise U("%s: %s is outside the translated subset" % (fn.name, type(n).__name__))
+        env, ret = {}, None
+        body = _loops_to_comps(list(fn.body), fn.name)
+        for k, s in enumerate(body):
+            if ret is not None:
+                raise U("%s: code after return" % fn.name)
+            sub = lambda e: self.subst(e, env, params, frozenset(), stack)  # noqa: E731
+            if isinstance(s, ast.Expr) and isinstance(s.value, ast.Constant) and isinstance(s.value.value, str):
+                continue
+            if isinstance(s, ast.Pass):
+                continue
+            if isinstance(s, ast.AnnAssign) and s.value is not None and isinstance(s.target, ast.Name):
+                env[s.target.id] = sub(s.value)
+                continue
+            if isinstance(s, ast.Assign) and len(s.targets) == 1:
+                tgt = s.targets[0]
+                if isinstance(tgt, ast.Name):
+                    env[tgt.id] = sub(s.value)
+                    continue
+                if isinstance(tgt, ast.Tuple) and all(isinstance(e, ast.Name) for e in tgt.elts):
+                    val = sub(s.value)
+                    if isinstance(val, ast.Tuple) and len(val.elts) == len(tgt.elts):
+                        vals = list(val.elts)
+                    elif isinstance(val, ast.Call) and _dotted(val.func) in ("pywt.coeffs_to_array",) and len(tgt.elts) == 2:
+                        # unpacking a value of known length: a, b = v  ==  a = v[0]; b = v[1]
+                        vals = [ast.Subscript(value=copy.deepcopy(val), slice=ast.Constant(value=j), ctx=ast.Load())
+                                for j in range(len(tgt.elts))]
+                    else:
+                        raise U("%s: tuple unpacking of %s (length not known to the translator)" % (fn.name, _src(s.value)))
+                    for e, v in zip(tgt.elts, vals):
+                        env[e.id] = v
+                    continue
+            if isinstance(s, ast.Return):
+                if s.value is None:
+                    raise U("%s: bare return" % fn.name)
+                ret = sub(s.value)
+                continue
+            raise U("%s: statement `%s` is outside the translated subset (straight-line data flow only)" % (
+                fn.name, _src(s).split("\n")[0][:80]))
+        if ret is None:
+            raise U("%s: no return" % fn.name)
+        self._cache[key] = (hparams, ret)
+        return hparams, ret
+
+
+# -- rendering ---------------------------------------------------------------------------------------------------------
+class _Tok(ast.NodeTransformer):
+    def __init__(self, tokens):
+        self.tokens = tokens  # [(dump, token)]
+
+    def visit(self, node):
+        if isinstance(node, ast.expr):
+            d = _dump(node)
+            for k, t in self.tokens:
+                if k == d:
+                    return ast.Name(id=t, ctx=ast.Load())
+        return self.generic_visit(node)
+
+
+class _Rename(ast.NodeTransformer):
+    def __init__(self, a, b):
+        self.a, self.b = a, b
+
+    def visit_Name(self, node):
+        return ast.Name(id=self.b, ctx=node.ctx) if node.id == self.a else node
+
+
+def _render(node, tokens):
+    return _src(ast.fix_missing_locations(_Tok(tokens).visit(copy.deepcopy(node))))
+
+
+def _unique_call(ret, name, where):
+    found = {}
+    for n in ast.walk(ret):
+        if isinstance(n, ast.Call) and _dotted(n.func) == name:
+            found[_dump(n)] = n
     if len(found) != 1:
-        raise T.Unsupported("expected exactly one pywt.%s call in %s, found %d" % (attr, fn.name, len(found)))
-    return found[0]
+        raise U("expected exactly one %s call feeding the result of %s, found %d" % (name, where, len(found)))
+    return list(found.values())[0]
 
 
-def _data_shape_source(fn, arg):
-    """where the shape of the decomposed array comes from: `np.zeros(S)` -> S; a name assigned from
-    `util.resize(input, S)` -> `resize:S`."""
-    if isinstance(arg, ast.Call) and _src(arg.func) in ("np.zeros", "numpy.zeros") and len(arg.args) == 1:
-        return "shape:" + _src(arg.args[0])
-    if isinstance(arg, ast.Name):
-        val = T.find_assign(fn, arg.id)
-        if isinstance(val, ast.Call) and _src(val.func) == "util.resize" and len(val.args) == 2 and not val.keywords:
-            return "shape:" + _src(val.args[1])
-        return "expr:" + _src(val)
-    return "expr:" + _src(arg)
+def _kw(call, name):
+    for k in call.keywords:
+        if k.arg == name:
+            return k.value
+    return None
 
 
-def _call_sig(fn, call, data_as_shape=True):
-    """[function, data, positional args..., k=v sorted...]"""
-    parts = [call.func.attr]
-    args = list(call.args)
-    if args:
-        parts.append(_data_shape_source(fn, args[0]) if data_as_shape else "arg:" + _src(args[0]))
-        parts += ["arg:" + _src(a) for a in args[1:]]
-    parts += sorted("%s=%s" % (k.arg, _src(k.value)) for k in call.keywords)
-    return parts
+def _sig(call, tokens, replace=None):
+    """[callee attr, param=value ...] of a canonical (keyword-form) call"""
+    replace = replace or {}
+    return [call.func.attr] + [replace[k.arg] if k.arg in replace else "%s=%s" % (k.arg, _render(k.value, tokens))
+                               for k in call.keywords]
 
 
-def _pack_sig(fn):
-    """coeffs_to_array must be applied to the value returned by the function's own wavedecn call"""
-    call = _find_call(fn, "coeffs_to_array")
-    dec = _find_call(fn, "wavedecn")
-    parts = _call_sig(fn, call, data_as_shape=False)
-    a0 = call.args[0] if call.args else None
-    ok = False
-    if isinstance(a0, ast.Name):
-        for n in ast.walk(fn):  # the *first* assignment to that name must be the wavedecn call
-            if isinstance(n, ast.Assign) and len(n.targets) == 1 and isinstance(n.targets[0], ast.Name) \
-                    and n.targets[0].id == a0.id:
-                ok = n.value is dec
-                break
-    parts[1] = "arg:<wavedecn result>" if ok else "arg:" + _src(a0)
-    return parts
+class _IntExpr(T.Expr):
+    """T2 with conditional expressions: `a if c else b` -> `(if c then a else b)`; an int used as a condition is
+    `≠ 0` (Python truthiness).  Lets `i if i % 2 == 0 else i + 1`, `i + 1 if i % 2 else i` through; the theorems about
+    the generated definition are proved by case split + linear arithmetic, whatever the spelling."""
+
+    def e_IfExp(self, e):
+        c = self.cond(e.test)
+        (a, ta), (b, tb) = self.tr(e.body), self.tr(e.orelse)
+        if ta != T.INT or tb != T.INT:
+            raise U("conditional expression on non-int")
+        return ("(if %s then %s else %s)" % (c, a, b), T.INT)
+
+    def cond(self, e):
+        if isinstance(e, (ast.BoolOp, ast.Compare)) or (isinstance(e, ast.UnaryOp) and isinstance(e.op, ast.Not)):
+            return super().cond(e)
+        s, t = self.tr(e)
+        if t != T.INT:
+            raise U("truth value of a non-int")
+        return "(%s ≠ (0 : Int))" % s
+
+
+def _int_formula(expr_node, int_vars):
+    s, t = _IntExpr({v: T.INT for v in int_vars}).tr(expr_node)
+    if t != T.INT:
+        raise U("formula is not an int")
+    return s
+
+
+def _zshape(comp, expect_iter, where):
+    """(lean body, variable, token) of the padded-shape comprehension"""
+    if not isinstance(comp, ast.ListComp):
+        raise U("%s: padded shape is %s, not a list comprehension" % (where, _src(comp)))
+    elt, names, it = T.listcomp_elt(comp)
+    if len(names) != 1:
+        raise U("%s: padded-shape comprehension binds %s" % (where, names))
+    tok = "<zshape>" if _dump(it) == _dump(expect_iter) else "<zshape over %s>" % _src(it)
+    # the bound variable is named `i` in the generated definition whatever the source calls it
+    if names[0] != "i":
+        if "i" in _names(elt):
+            raise U("%s: padded-shape element mentions a free name i" % where)
+        elt = _Rename(names[0], "i").visit(copy.deepcopy(elt))
+    return _int_formula(elt, ["i"]), "i", tok
 
 
 def _lean_list(parts):
-    return "[" + ", ".join('"%s"' % p for p in parts) + "]"
+    return "[" + ", ".join(_lean_str(p) for p in parts) + "]"
 
 
-def _zshape(fn, expect_iter):
-    node = T.find_assign(fn, "zshape")
-    elt, names, it = T.listcomp_elt(node)
-    if _src(it) != expect_iter:
-        raise T.Unsupported("zshape in %s iterates over %s (expected %s)" % (fn.name, _src(it), expect_iter))
-    if len(names) != 1:
-        raise T.Unsupported("zshape comprehension binds %s" % names)
-    return T.formula(elt, names), names[0]
+def _lean_str(s):
+    return '"%s"' % s.replace("\\", "\\\\").replace('"', "'").replace("\n", " ")
 
 
 def gen_c10(ctx=None):
     tree = G._parse("sigpy/wavelet.py")
     out = [G.HEADER % "sigpy/wavelet.py"]
-    f_shape = T.find_function(tree, "get_wavelet_shape")
-    f_fwt = T.find_function(tree, "fwt")
-    f_iwt = T.find_function(tree, "iwt")
-    for fn, lean, it in [(f_shape, "waveZshapeShape", "shape"), (f_fwt, "waveZshapeFwt", "input.shape")]:
-        body, v = _zshape(fn, it)
-        out.append("/-- generated from `%s`: element of `zshape` (iterating over `%s`) -/\ndef %s (%s : Int) : Int := %s\n" % (
-            fn.name, it, lean, T.nm(v), body))
-    # signatures: the parameters the glue forwards must exist under these names
-    for fn, want in [(f_shape, ["shape", "wave_name", "axes", "level"]), (f_fwt, ["input", "wave_name", "axes", "level"]),
-                     (f_iwt, ["input", "oshape", "coeff_slices", "wave_name", "axes", "level"])]:
-        got = [a.arg for a in fn.args.args]
+    R = Resolver(tree)
+    rets = {}
+    for name, want in API.items():
+        fns = [s for s in tree.body if isinstance(s, ast.FunctionDef) and s.name == name]
+        if len(fns) != 1:
+            raise U("%d module-level definitions of %s" % (len(fns), name))
+        got = [a.arg for a in fns[0].args.args]
         if got != want:
-            raise T.Unsupported("%s signature changed: %s" % (fn.name, got))
-    defs = [
-        ("waveDecCallShape", "pywt.wavedecn call of get_wavelet_shape", _call_sig(f_shape, _find_call(f_shape, "wavedecn"))),
-        ("waveDecCallFwt", "pywt.wavedecn call of fwt", _call_sig(f_fwt, _find_call(f_fwt, "wavedecn"))),
-        ("wavePackCallShape", "pywt.coeffs_to_array call of get_wavelet_shape (first argument = result of its wavedecn call)",
-         _pack_sig(f_shape)),
-        ("wavePackCallFwt", "pywt.coeffs_to_array call of fwt (first argument = result of its wavedecn call)",
-         _pack_sig(f_fwt)),
-        ("waveRecCallIwt", "pywt.waverecn call of iwt", _call_sig(f_iwt, _find_call(f_iwt, "waverecn"), data_as_shape=False)),
-        ("waveUnpackCallIwt", "pywt.array_to_coeffs call of iwt",
-         _call_sig(f_iwt, _find_call(f_iwt, "array_to_coeffs"), data_as_shape=False)),
-    ]
+            raise U("%s signature changed: %s" % (name, got))
+        rets[name] = R.resolve(fns[0])[1]
+    defs = []
+
+    # ---- get_wavelet_shape -------------------------------------------------------------------------------------------
+    ret = rets["get_wavelet_shape"]
+    dec = _unique_call(ret, "pywt.wavedecn", "get_wavelet_shape")
+    pack = _unique_call(ret, "pywt.coeffs_to_array", "get_wavelet_shape")
+    data = _kw(dec, "data")
+    if not (isinstance(data, ast.Call) and _dotted(data.func) == "np.zeros"
+            and _src(data) == "np.zeros(shape=%s, dtype=float, order='C')" % _src(_kw(data, "shape"))):
+        raise U("get_wavelet_shape decomposes %s (expected np.zeros(<padded shape>))" % _src(data))
+    comp = _kw(data, "shape")
+    body, v, ztok = _zshape(comp, ast.Name(id="shape", ctx=ast.Load()), "get_wavelet_shape")
+    out.append("/-- generated from `get_wavelet_shape`: element of the padded shape (iterating over `shape`) -/\n"
+               "def waveZshapeShape (%s : Int) : Int := %s\n" % (T.nm(v), body))
+    toks = [(_dump(comp), ztok)]
+    defs.append(("waveDecCallShape", "pywt.wavedecn call of get_wavelet_shape (data: an array of the padded shape)",
+                 _sig(dec, toks, {"data": "shape:" + ztok})))
+    toks = [(_dump(dec), "<dec>")] + toks
+    defs.append(("wavePackCallShape", "pywt.coeffs_to_array call of get_wavelet_shape", _sig(pack, toks)))
+    toks = [(_dump(pack), "<pack>")] + toks
+    defs.append(("waveRetShape", "value returned by get_wavelet_shape", [_render(ret, toks)]))
+
+    # ---- fwt -------------------------------------------------------------------------------------------------------------
+    ret = rets["fwt"]
+    dec = _unique_call(ret, "pywt.wavedecn", "fwt")
+    pack = _unique_call(ret, "pywt.coeffs_to_array", "fwt")
+    pad = _kw(dec, "data")
+    if not (isinstance(pad, ast.Call) and _dotted(pad.func) == "util.resize"
+            and [_src(k) for k in pad.keywords[2:]] == ["ishift=None", "oshift=None"]):
+        raise U("fwt decomposes %s (expected util.resize(<array>, <padded shape>) with default shifts)" % _src(pad))
+    comp = _kw(pad, "oshape")
+    body, v, ztok = _zshape(comp, Resolver._simplify(ast.Attribute(value=_kw(pad, "input"), attr="shape", ctx=ast.Load())), "fwt")
+    out.append("/-- generated from `fwt`: element of the padded shape (iterating over the shape of the array that is padded) -/\n"
+               "def waveZshapeFwt (%s : Int) : Int := %s\n" % (T.nm(v), body))
+    toks = [(_dump(comp), ztok)]
+    defs.append(("wavePadCallFwt", "the pad call of fwt (util.resize; default shifts)", _sig(pad, toks)))
+    defs.append(("waveDecCallFwt", "pywt.wavedecn call of fwt (data: <pad>, an array of the padded shape)",
+                 _sig(dec, toks, {"data": "shape:" + ztok})))
+    toks = [(_dump(dec), "<dec>"), (_dump(pad), "<pad>")] + toks
+    defs.append(("wavePackCallFwt", "pywt.coeffs_to_array call of fwt", _sig(pack, toks)))
+    toks = [(_dump(pack), "<pack>")] + toks
+    defs.append(("waveRetFwt", "value returned by fwt", [_render(ret, toks)]))
+
+    # ---- iwt -------------------------------------------------------------------------------------------------------------
+    ret = rets["iwt"]
+    rec = _unique_call(ret, "pywt.waverecn", "iwt")
+    unp = _unique_call(ret, "pywt.array_to_coeffs", "iwt")
+    crop = _unique_call(ret, "util.resize", "iwt")
+    toks = []
+    defs.append(("waveUnpackCallIwt", "pywt.array_to_coeffs call of iwt",
+                 _sig(unp, toks)))
+    toks = [(_dump(unp), "<unpack>")] + toks
+    defs.append(("waveRecCallIwt", "pywt.waverecn call of iwt", _sig(rec, toks)))
+    toks = [(_dump(rec), "<rec>")] + toks
+    defs.append(("waveCropCallIwt", "the crop call of iwt (util.resize; default shifts)", _sig(crop, toks)))
+    toks = [(_dump(crop), "<crop>")] + toks
+    defs.append(("waveRetIwt", "value returned by iwt", [_render(ret, toks)]))
+
     for lean, doc, parts in defs:
         out.append("/-- generated: %s -/\ndef %s : List String := %s\n" % (doc, lean, _lean_list(parts)))
-    # the final crop of iwt: `output = util.resize(output, oshape)`
-    crop = None
-    for n in ast.walk(f_iwt):
-        if isinstance(n, ast.Call) and _src(n.func) == "util.resize":
-            crop = n
-    if crop is None:
-        raise T.Unsupported("iwt no longer crops with util.resize")
-    out.append("/-- generated: the crop call of iwt -/\ndef waveCropCallIwt : List String := %s\n" % _lean_list(
-        ["resize"] + ["arg:" + _src(a) for a in crop.args] + sorted("%s=%s" % (k.arg, _src(k.value)) for k in crop.keywords)))
-    # the pad call of fwt
-    pad = T.find_assign(f_fwt, "zinput")
-    out.append("/-- generated: the pad call of fwt -/\ndef wavePadCallFwt : List String := %s\n" % _lean_list(
-        [_src(pad.func)] + ["arg:" + _src(a) for a in pad.args] + sorted("%s=%s" % (k.arg, _src(k.value)) for k in pad.keywords)
-        if isinstance(pad, ast.Call) else ["expr:" + _src(pad)]))
     out.append("end SigpyVerif.Gen\n")
     return "\n".join(out)
 
